@@ -1075,3 +1075,12 @@ M('c02-dups-removed-when-primary-corrupt', 'C02', "            if computed_hash 
 M('c02-unverified-duplicate-restored', 'C02', "                    if computed_hash == reference_obj_hashkey:\n                        # We found a duplicate", "                    if computed_hash:\n                        # We found a duplicate", 'C02.R4')
 M('c15-cli-swallows-failure', 'C15', "            click.echo(f'Error: {e}')\n            sys.exit(1)", "            click.echo(f'Error: {e}')", 'C15.R4', 'disk_objectstore/cli.py')
 M('c14-missing-source-keys-not-skipped', 'C14', "        with source_container.get_objects_stream_and_meta(hashkeys) as triplets:", "        with source_container.get_objects_stream_and_meta(hashkeys, skip_if_missing=False) as triplets:", 'C14.R5')
+
+# ------------------------------------------------------------------------------------------------ C16.R5 (abstract interpretation of the merge)
+M('c16-merge-wrong-comparison', 'C16', "            elif left_key(last_left) < last_right:\n                # the new entry (last_left) is still smaller", "            elif left_key(last_left) > last_right:\n                # the new entry (last_left) is still smaller", 'C16.R5', U)
+M('c16-merge-no-side-switch', 'C16', "                yield last_right, Location.RIGHTONLY\n                now_left = False", "                yield last_right, Location.RIGHTONLY", 'C16.R5', U)
+M('c16-merge-both-not-advanced', 'C16', "            yield last_left, Location.BOTH\n            # I need to consume and advance on both iterators at the next iteration\n            advance_both = True\n        elif left_key(last_left) > last_right:", "            yield last_left, Location.BOTH\n        elif left_key(last_left) > last_right:", 'C16.R5', U)
+M('c16-merge-stale-left-after-exhaustion', 'C16', "                left_exhausted = True\n                # I need to store in a different variable, otherwise in this case\n                # I would also enter the next iteration even if advance_both is False!\n                new_now_left = False", "                left_exhausted = True", 'C16.R5', U)
+M('c16-merge-wrong-location', 'C16', "        elif left_exhausted:\n            yield last_right, Location.RIGHTONLY", "        elif left_exhausted:\n            yield last_right, Location.LEFTONLY", 'C16.R5', U)
+M('c16-merge-right-not-advanced-on-both', 'C16', "        if not now_left or advance_both:\n            try:\n                new = next(right_iterator)", "        if not now_left:\n            try:\n                new = next(right_iterator)", 'C16.R5', U)
+T('c16-twin-initial-side', 'C16', "    if left_exhausted or (not right_exhausted and left_key(last_left) > last_right):", "    if left_exhausted or (not right_exhausted and left_key(last_left) < last_right):", U)
